@@ -350,6 +350,18 @@ def parseMajorMinor (mk : Nat → Nat → Os) (rest : List Char) : Option (Excep
 def dropPrefix? (pre s : List Char) : Option (List Char) :=
   if pre.isPrefixOf s then some (s.drop pre.length) else none
 
+/-- the `_platform_major_minor_re` families -/
+def familyRe (l : List Char) : Option (Except PlatErr Platform) :=
+  match dropPrefix? "manylinux_".toList l with
+  | some r => parseMajorMinor .manylinux r
+  | none =>
+    match dropPrefix? "macos_".toList l with
+    | some r => parseMajorMinor .macos r
+    | none =>
+      match dropPrefix? "musllinux_".toList l with
+      | some r => parseMajorMinor .musllinux r
+      | none => none
+
 /-- `Platform.parse` (platform.py:41-92) -/
 def parsePlatform (s : String) : Except PlatErr Platform :=
   if s == "linux" then .ok ⟨.manylinux 2 17, .x86_64⟩
@@ -364,17 +376,7 @@ def parsePlatform (s : String) : Except PlatErr Platform :=
       if s == "macos_arm64" then .ok ⟨.macos 14 0, .aarch64⟩
       else if s == "macos_x86_64" then .ok ⟨.macos 14 0, .x86_64⟩
       else
-        let tryRe : Option (Except PlatErr Platform) :=
-          match dropPrefix? "manylinux_".toList l with
-          | some r => parseMajorMinor .manylinux r
-          | none =>
-            match dropPrefix? "macos_".toList l with
-            | some r => parseMajorMinor .macos r
-            | none =>
-              match dropPrefix? "musllinux_".toList l with
-              | some r => parseMajorMinor .musllinux r
-              | none => none
-        match tryRe with
+        match familyRe l with
         | some r => r
         | none => .error .unmodelled
 
